@@ -130,12 +130,13 @@ fn faults(ctx: &mut Ctx, e: &Envelope, comp: &Envelope, rng: &mut crate::rng::Rn
     expect_reject_or_same(ctx, &mk(crc, size, &data, &other), e, "digest-replaced");
     // content Y with declared digest d(E)
     let yn = rng.next_u64();
-    let y = match rng.below(6) {
+    let y = match rng.below(7) {
         0 => Envelope::new(format!("Y-{}", yn)),
         1 => Envelope::new(format!("Y-{}", yn)).wrap_envelope(),
         2 => Envelope::new_assertion("yk", yn),
         3 => Envelope::new(KnownValue::new(yn % 97)),
         4 => Envelope::new(format!("Y-{}", yn)).elide(),
+        5 => Envelope::new(format!("Y-{} {}", yn, "y".repeat(200))).add_assertion("k", 2).compress().unwrap(),
         _ => Envelope::new(format!("Y-{}", yn)).add_assertion("k", 1),
     };
     let forged = Compressed::from_uncompressed_data(env_bytes(&y), Some(Digest::from_data(gen::root_digest(e))));
@@ -191,6 +192,14 @@ pub fn run(ctx: &mut Ctx) {
         cfg.big = case % 3 != 0;
         cfg.node_subject = case % 5 == 4;
         let (_m, e) = universe(&mut rng, cfg, case);
+        // now and then a payload that deflates better than 1000:1 (a long run of one byte)
+        let e = if case % 1500 == 77 {
+            ctx.count("extreme_ratio_payloads");
+            let n = *rng.pick(&[700_000usize, 1 << 20, 2_000_000]);
+            Envelope::new(dcbor::ByteString::from(vec![if rng.chance(1, 2) { 0u8 } else { b' ' }; n])).add_assertion("kind", "run")
+        } else {
+            e
+        };
         let t = tree_of(&e);
         ctx.nontrivial(t.shape_hash());
         let subj_kind = if t.kind == Kind::Node { t.children[0].kind } else { t.kind };
